@@ -201,3 +201,91 @@ Definition wf_matches (old new : bytes) (ms : list bmatch) : bool :=
   | [] => blen new =? 0
   | m :: _ => (add_old_start m =? 0) && wf_matches_from old new 0 ms
   end.
+
+(* ---------- bipatch Reader as the state machine it is: read(buf) called with any buffer sizes ----------
+   One [iter] is one turn of the `while !buf.is_empty()` loop of Reader::read; [b] is the room left in
+   the caller's buffer (> 0), [cap] the Reader's internal 4096-byte scratch buffer. *)
+Inductive rst := RInit | RAdd (k : N) | RCopy (k : N) | RFinal.
+Record rd := { r_st : rst; r_p : bytes; r_pos : Z }.
+
+Definition bad_pos (z : Z) : bool := (z <? 0)%Z || (two63 <=? z)%Z.
+
+Definition iter (old : bytes) (cap : N) (s : rd) (b : N) : option (bytes * rd) :=
+  match r_st s with
+  | RInit =>
+      match dec_u (r_p s) with
+      | VOk k p1 => Some ([], {| r_st := RAdd k; r_p := p1; r_pos := r_pos s |})
+      | VEof => Some ([], {| r_st := RFinal; r_p := r_p s; r_pos := r_pos s |})
+      | VInvalid => None
+      end
+  | RAdd k =>
+      let n := N.min (N.min k b) cap in
+      match read_old old (r_pos s) n, take_N n (r_p s) with
+      | Some o, Some (dif, p1) =>
+          let pos1 := (r_pos s + Z.of_N n)%Z in
+          if k =? n then
+            match dec_u p1 with
+            | VOk c p2 => Some (add_bytes o dif, {| r_st := RCopy c; r_p := p2; r_pos := pos1 |})
+            | _ => None
+            end
+          else Some (add_bytes o dif, {| r_st := RAdd (k - n); r_p := p1; r_pos := pos1 |})
+      | _, _ => None
+      end
+  | RCopy k =>
+      let n := N.min k b in
+      match take_N n (r_p s) with
+      | Some (cp, p1) =>
+          if k =? n then
+            match dec_s p1 with
+            | VOk sk p2 =>
+                let pos' := (r_pos s + sk)%Z in
+                if bad_pos pos' then None
+                else Some (cp, {| r_st := RInit; r_p := p2; r_pos := pos' |})
+            | _ => None
+            end
+          else Some (cp, {| r_st := RCopy (k - n); r_p := p1; r_pos := r_pos s |})
+      | None => None
+      end
+  | RFinal => Some ([], s)
+  end.
+
+(* std::io::copy: read into a buffer of [sizes i] bytes (the i-th call), until a call returns 0.
+   Flattened: [b] is what is left of the current buffer; a full buffer starts call i+1.
+   Every turn either consumes a patch byte or reaches RFinal, so fuel = S (length patch) is enough.
+   None = some read returned an error (the whole inflate fails). *)
+Fixpoint chunked (fuel : nat) (old : bytes) (cap : N) (sizes : nat -> N) (s : rd) (b : N) (i : nat)
+  : option bytes :=
+  match fuel with
+  | O => None
+  | S f =>
+      match r_st s with
+      | RFinal => Some []
+      | _ =>
+          let b' := if b =? 0 then sizes (S i) else b in
+          let i' := if b =? 0 then S i else i in
+          match iter old cap s b' with
+          | None => None
+          | Some (o, s') =>
+              match chunked f old cap sizes s' (b' - blen o) i' with
+              | Some r => Some (o ++ r)
+              | None => None
+              end
+          end
+      end
+  end.
+
+(* Reader::new + io::copy with the given buffer sizes *)
+Definition apply_patch_chunked (cap : N) (sizes : nat -> N) (old patch : bytes) : option bytes :=
+  match take_exact 4 patch with
+  | Some (m, p1) =>
+      if bytes_eqb m magic_bytes then
+        match take_exact 4 p1 with
+        | Some (v, p2) =>
+            if bytes_eqb v version_bytes
+            then chunked (S (S (List.length p2))) old cap sizes {| r_st := RInit; r_p := p2; r_pos := 0 |} 0 0
+            else None
+        | None => None
+        end
+      else None
+  | None => None
+  end.
